@@ -9,10 +9,12 @@
            `AdjClauses` judges an observed region by decoding it and comparing the decoded
            (edge, mark, orientation) multiset with the maze: order is free, orientation is free only
            for RandomCoords.
-   PART 4  origin / target / path: deterministic, so the spec's encoding is compared as a sequence.
+   PART 4  origin / target regions are decoded to cells; the path region is deterministic, so the
+           spec's own encoding of the solution steps is compared as a sequence.
    PART 5  region grammar (eight delimiters, each once, ordered, contiguous, trimmed by maze kind),
            vocabulary membership, verdict of a whole prompt.
-   PART 6  design-level state machine model-checked by TLC (TokMod_small.cfg / TokMod_full.cfg):
+   PART 6  design-level state machine model-checked by TLC (TokMod_small.cfg / TokMod_full.cfg, split
+           over parallel runs by parameter index; TokMod_bug_*.cfg = broken emitters TLC must reject):
            a tokenizer emits the selected edges in ANY order (and, where allowed, orientation);
            every such stream is accepted and decodes to exactly the maze; the same stream is
            rejected for every other maze; any single-record change / drop / duplication is
